@@ -215,8 +215,11 @@ Lemma step_setval g m id v s sp :
   R g s sp -> contract_step g (SetVal id v) sp = true -> step_good g m (SetVal id v) s sp.
 Proof.
   intros HR HC. unfold step_good. cbn [step].
-  cbn [contract_step] in HC. apply andb_prop in HC as [HL HV]. apply memb_in in HL.
-  pose proof (R_live_range _ _ _ _ HR HL) as Hr. pose proof (R_hwm _ _ _ HR) as Hh.
+  cbn [contract_step] in HC. apply andb_prop in HC as [HL HV].
+  assert (Hr : 0 <= id < hwm s).
+  { apply orb_prop in HL as [HL|HL]; apply memb_in in HL;
+      [exact (R_live_range _ _ _ _ HR HL)|exact (R_freed_range _ _ _ _ HR HL)]. }
+  pose proof (R_hwm _ _ _ HR) as Hh.
   rewrite (R_n _ _ _ HR) in Hh.
   unfold set_counter_value. rewrite put_val_ok by (try apply (R_geom _ _ _ HR); lia).
   assert (HR1 : R g (set_val s id v) (spec_step (SetVal id v) (OStep (COk 0) (COk 0) (for_each_ids (set_val s id v))) sp)).
